@@ -1354,30 +1354,46 @@ impl<'a> Gen<'a> {
             let d = 2;
             match self.rng.below(23) {
                 21 | 22 if depth > 0 && !self.prog.structs.is_empty() => {
-                    // `let mut p = ..; loop { if fuel == 0 || p == target { break; } .. p.a.b = ..; }`
-                    // with a struct type that has nested struct members when there is one.
+                    // let mut p = <value>; let mut cnt = 0;
+                    // loop { if fuel == 0 || p == <value with one member replaced> { break; } p.a.b = <that member>; cnt += 1; }
+                    // if cnt == 1 { return ..; }
+                    // The comparison takes a snapshot of the whole struct in every iteration while
+                    // the body assigns a (possibly nested) member: the loop must stop after one
+                    // assignment.
                     let nested: Vec<usize> = (0..self.prog.structs.len()).filter(|i| self.prog.structs[*i].fields.iter().any(|t| matches!(t, T::Struct(_)))).collect();
                     let si = if !nested.is_empty() && self.rng.chance(4, 5) { *self.rng.pick(&nested) } else { self.rng.below(self.prog.structs.len()) };
                     let t = T::Struct(si);
                     let name = self.fresh("v");
-                    let init = self.expr(&t, env, fidx, 1);
+                    let init_v = self.rand_value(&t);
+                    let (path, ft) = self.member_path(si);
+                    let new_member = self.rand_value(&ft);
+                    let mut target_v = init_v.clone();
+                    *member_mut(&mut target_v, &path) = new_member.clone();
+                    let init = self.lit_expr(&t, &init_v);
                     out.push(S::Let(name.clone(), t.clone(), true, init));
                     env.push(Var { name: name.clone(), ty: t.clone(), mutable: true, moved: false, snap: false, pinned: false });
+                    let cnt = self.fresh("v");
+                    out.push(S::Let(cnt.clone(), T::Felt, true, E::Lit(T::Felt, V::Felt(BigInt::zero()))));
+                    env.push(Var { name: cnt.clone(), ty: T::Felt, mutable: true, moved: false, snap: false, pinned: true });
                     let f = self.fresh("fuel");
-                    let k = 1 + self.rng.below(4) as u32;
-                    let target = self.expr(&t, env, fidx, 1);
-                    let c = E::EqDerived(Box::new(E::Var(name.clone())), Box::new(target));
-                    let mut body = vec![];
-                    for _ in 0..1 + self.rng.below(2) {
-                        let (path, ft) = self.member_path(si);
-                        let e = self.expr(&ft, env, fidx, 1);
-                        body.push(if matches!(ft, T::Int(_) | T::Felt) && self.rng.bool() {
-                            S::FieldCompound(name.clone(), path, *self.rng.pick(&["+", "*"]), ft, e)
-                        } else {
-                            S::FieldAssign(name.clone(), path, e)
-                        });
-                    }
+                    let k = 2 + self.rng.below(3) as u32;
+                    let target = self.lit_expr(&t, &target_v);
+                    let c = if self.rng.bool() {
+                        E::EqDerived(Box::new(E::Var(name.clone())), Box::new(target))
+                    } else {
+                        E::EqDerived(Box::new(target), Box::new(E::Var(name.clone())))
+                    };
+                    let member_e = self.lit_expr(&ft, &new_member);
+                    let body = vec![
+                        S::FieldAssign(name.clone(), path, member_e),
+                        S::CompoundAssign(cnt.clone(), "+", T::Felt, E::Lit(T::Felt, V::Felt(BigInt::one()))),
+                    ];
                     out.push(S::Loop(f, k, c, body));
+                    if !in_loop {
+                        let e = self.expr(ret, env, fidx, 1);
+                        let j = E::Lit(T::Felt, V::Felt(BigInt::from(1 + self.rng.below(2))));
+                        out.push(S::ReturnIf(E::Bin("==", T::Felt, Box::new(E::Var(cnt)), Box::new(j)), e));
+                    }
                 }
                 0..=3 => {
                     let t = if self.rng.chance(1, 6) { T::Arr(Box::new(self.scalar_type())) } else { self.value_type(1) };
